@@ -464,7 +464,7 @@ def main():
         pool = multiprocessing.Pool(2, _init, (tools, scr, opts))
     else:
         pool = multiprocessing.Pool(nproc, _init, (tools, scr, opts))
-        n = 1500 if not ck.thorough() else 30000
+        n = 3000 if not ck.thorough() else 30000
         base = ck.rng.randrange(1 << 30)
         fragment_tie(ck, tools, scr, 150 if not ck.thorough() else 1500)
         jobs = corpus_jobs(PID) + directed_jobs() + shipped_jobs() + [('gen', base + i) for i in range(n)]
